@@ -465,7 +465,14 @@ def expected_names(q, cx, env=None, using_order="std"):
     """list of (text, quoted) | None (an unnamed expression) ; or None when a star ranges over an unknown source"""
     env = dict(env or {})
     for name, cq, cols in q["with"]:
-        out = [cx.pair(AC(c)) for c in cols] if cols else expected_names(cq, cx, env, using_order)
+        out = expected_names(cq, cx, env, using_order)
+        if cols:
+            # a column list renames the first len(cols) output columns of the body (it may be shorter than the projection list)
+            named = [cx.pair(AC(c)) for c in cols]
+            if out is None and len(cq.get("p") or []) != len(named):
+                out = None  # the body's width is unknown (a star over an unknown source): the list may or may not cover it
+            else:
+                out = named + list(out[len(named):]) if out is not None and len(out) > len(named) else named
         env[fold(cx.pair(name), cx.dialect)] = out
     if q["k"] == "union":
         return expected_names(q["l"], cx, env, using_order)
@@ -625,6 +632,9 @@ def skeletons():
     add("star-except-twice", sel([star(AT("sa"), ex="ab"), star(AT("sa")), pe(col("c"), "xc")], [tab("t", "sa")]))
     add("star-except-twice", sel([star(ex="a"), star(T("u"))], [t, u]))
     add("star-except-twice", sel([star(T("u"), ex="d"), STAR], [t, u]))
+    add("star-except-twice", sel([star(ex="a"), STAR], [t]))  # two BARE stars: the modifiers belong to the first one only
+    add("star-except-twice", sel([star(rep="b"), pe(col("c"), "xc"), STAR], [t]))
+    add("star-except-twice", sel([star(ex="a"), STAR], [t, u]))
     add("star-except-twice", sel([star(T("t"), ex="a"), star(T("u"), ex="b"), star(T("t")), star(T("u"))], [t, u]))
 
     # --- JOIN ... ON
@@ -785,6 +795,9 @@ def skeletons():
     add("cte-colalias", sel([pe(("col", wa, AC("xb"))), pe(xa)], [cte(wa)], with_=wc, o=[xa]))
     add("cte-colalias", sel([star(wa)], [cte(wa)], with_=[(wa, inner["i2"], ["xa", "xb", "xc"])]))
     add("cte-colalias", sel([pe(col("a"))], [cte(wa)], with_=wc))  # hidden inner name
+    # a column list shorter than the body's projection list renames a prefix; the remaining columns keep their names
+    add("cte-colalias-short", sel([STAR], [cte(wa)], with_=[(wa, i1, ["xa"])]))
+    add("cte-colalias-short", sel([star(wa)], [cte(wa)], with_=[(wa, inner["i2"], ["xa", "xb"])]))
     add("having-column", sel([pe(xa)], [cte(wa)], with_=wc, w=op(">", xb, num(0)), g=[xa], h=op(">", fn("MAX", xb), num(0))))
     # CTE named like a base table shadows it
     ws = [(T("t"), dv, None)]
